@@ -1092,3 +1092,8 @@ VARIANTS += [
     V('C20-E30', 'E', ALL, CX, 'SpawnProcess._run_logger', r"record = q\.get\(timeout=0\.1\)", "record = q.get(True, 0.2)", note='positional timeout'),
     V('C20-E31', 'E', ALL, CX, 'SpawnProcess._run_logger', r"if ended:\n(.*?)break\n(\s+)continue\n", r"if not ended:\n\2    continue\n\2break\n", note='handler arms swapped'),
 ]
+
+VARIANTS += [
+    V('C20-M35', 'M', ('C20',), CX, None, r"(\nclass SpawnProcess\(multiprocessing\.context\.SpawnProcess\):)(.*?)qh = logging\.handlers\.QueueHandler\(logger_queue\)", r"\nclass _QH(logging.handlers.QueueHandler):\n    def prepare(self, record):\n        return record\n\n\1\2qh = _QH(logger_queue)", ('C20-2',), note='seeded C20-r4m1 shape'),
+    V('C20-E35', 'E', ALL, CX, None, r"(\nclass SpawnProcess\(multiprocessing\.context\.SpawnProcess\):)(.*?)qh = logging\.handlers\.QueueHandler\(logger_queue\)", r"\nclass _QH(logging.handlers.QueueHandler):\n    pass\n\n\1\2qh = _QH(logger_queue)", note='trivial subclass of QueueHandler'),
+]
